@@ -494,8 +494,10 @@ func findNonSpace(r []rune, i, end int) int {
 // findEnd finds end of the current symbol (position of next #, space, or line
 // end), returning end if not found.
 func findEnd(r []rune, i, end int) int {
-	for c := grab(r, i+1, end); i < end && c != '#' && !unicode.IsSpace(c) && !unicode.IsControl(c); i++ {
-		c = grab(r, i+1, end)
+	for ; i < end; i++ {
+		if c := r[i]; c == '#' || unicode.IsSpace(c) || unicode.IsControl(c) {
+			break
+		}
 	}
 
 	return i
@@ -533,8 +535,10 @@ func decodeKey(seq []rune, pos, end int) (string, int, error) {
 	// seek end of sequence
 	start := pos
 
-	for c := grab(seq, pos+1, end); pos < end && c != ':' && c != '#' && !unicode.IsSpace(c) && !unicode.IsControl(c); pos++ {
-		c = grab(seq, pos+1, end)
+	for ; pos < end; pos++ {
+		if c := seq[pos]; c == ':' || c == '#' || unicode.IsSpace(c) || unicode.IsControl(c) {
+			break
+		}
 	}
 
 	val := strings.ToLower(string(seq[start:pos]))
